@@ -187,6 +187,16 @@ def U_bundle():
     for t in b2_terms:
         insts = [inst("m", "CB2", [("bq", t)])]
         out.append(("U_bundle", design({"CB2": cb2, "Top": mod(top_sigs, insts + tprobes, top_b)}, bundles=bundles)))
+    # one leaf NAME at two paths of one bundle, with different widths; relative (negative) indices into both
+    B5 = {"sigs": [bsig("d", 4)], "subs": [], "roles": []}
+    B6 = {"sigs": [bsig("d", 2)], "subs": [], "roles": []}
+    B4 = {"sigs": [], "subs": [{"n": "tx", "of": "B5", "flipped": False}, {"n": "rx", "of": "B6", "flipped": False}], "roles": []}
+    B4L = [(("tx", "d"), 4), (("rx", "d"), 2)]
+    nib = mod([sig("a", 2, True), sig("b", 1, True)])
+    for ta, tb in [(Bref("n4", "rx", "d"), Slc(Bref("n4", "tx", "d"), I(-1))), (Bref("n4", "rx", "d"), Slc(Bref("n4", "tx", "d"), I(-3))),
+                   (Slc(Bref("n4", "tx", "d"), R(-2, None)), Slc(Bref("n4", "rx", "d"), I(-1))), (Bref("n4", "rx", "d"), Slc(Bref("n4", "tx", "d"), I(3)))]:
+        insts = [inst("p", "Nib", [("a", ta), ("b", tb)])]
+        out.append(("U_bundle", design({"Nib": nib, "Top": mod(top_sigs, insts + bprobes("n4", B4L), [bnd("n4", "B4")])}, bundles={"B4": B4, "B5": B5, "B6": B6})))
     # the same nested bundle type instantiated several times inside one module: every instance has its own nets
     for t, t2 in [(Bund("c"), Bund("c2")), (Bund("c2"), Bund("c2")), (Anon(s=Bref("c2", "s"), sub=Bref("c", "sub")), Bund("c3")),
                   (Anon(s=Sig("u"), sub=Bref("c3", "sub")), Anon(s=Bref("c", "s"), sub=Bref("c2", "sub")))]:
